@@ -16,10 +16,10 @@ CSS_ABBRS = ['p10', 'm10-20', 'bd1-s#f.5', 'c#f', 'fl', 'pos:a', 'm-10--20', 'w1
 def rand_tag(rnd):
     """a complete tag as left context: quoted values may contain the other kind of quote, `=`, `/` and blanks; boolean attributes and a
     self-closing slash may follow them"""
-    t = '<' + rnd.choice(['a', 'div', 'br', 'img', 'x-y', 'li'])
+    t = '<' + rnd.choice(['a', 'div', 'br', 'img', 'x-y', 'li', 'svg:rect', 'xsl:if', 'a:b-c'])
     for _ in range(rnd.randint(0, 3)):
         t += rnd.choice([' ', '  '])
-        t += rnd.choice(['hidden', 'b=c', 'title="it\'s"', "t='say \"hi\"'", 'class="x y"', 'd="a=b"', "e='/'", 'data-x="1/2"', 'q="\'"', "r='\"\"'", 'alt', 'n=1'])
+        t += rnd.choice(['hidden', 'b=c', 'title="it\'s"', "t='say \"hi\"'", 'class="x y"', 'd="a=b"', "e='/'", 'data-x="1/2"', 'q="\'"', "r='\"\"'", 'alt', 'n=1', 'v-on:click=go', 'xlink:href=x', 'a:b=c:d', 'xml:lang="en"'])
     t += rnd.choice(['>', '>', '/>', ' />', '> ', '>\t'])
     return t
 
